@@ -13,6 +13,8 @@ import Driver.C10
 import Driver.C06
 import Driver.C12
 import Driver.C13
+import Driver.C18
+import Driver.C11
 
 open Fontc Fontc.Driver
 
@@ -35,12 +37,16 @@ def handlers : List (String × Handler) :=
   |>.cons ("c02", C02.handle)
   |>.cons ("c09", C09.handle)
   |>.cons ("c09e2e", C09.handleE2E)
+  |>.cons ("c09wit", C09.handleE2E)
   |>.cons ("c10", C10.handle)
   |>.cons ("c10e2e", C10.handleE2E)
   |>.cons ("c06", C06.handle) |>.cons ("c06glyphs", C06.handleGlyphs) |>.cons ("c06e2e", C06.handleE2E)
   |>.cons ("c12e2e", C12.handle)
   |>.cons ("c13lex", C13.handleLex)
   |>.cons ("c13inc", C13.handleInc)
+  |>.cons ("c18", C18.handle) |>.cons ("c18e2e", C18.handleE2E)
+  |>.cons ("c11", C11.handle)
+  |>.cons ("c11x", C11.handle)
 
 def processLine (line : String) : String :=
   match Sexp.parse line with
